@@ -1,15 +1,14 @@
-\* state-cover plans: one history per distinct design state (as built) at depth 9, all counts 1..4 x 1..4, both namings
+\* random deep plans with failing collection starts
 SPECIFICATION Spec
 CHECK_DEADLOCK FALSE
-VIEW view
 INVARIANTS PlanOut
 CONSTANTS
   MaxS = 4
   MaxT = 4
   Pairs <- AllPairs
   Namings = {"distinct", "same"}
-  MaxOps = 9
+  MaxOps = 16
   HandoffChecksCapacity = FALSE
   ForwardCountedOnce = FALSE
   SourceKeyFromMapping = FALSE
-  WithFail = FALSE
+  WithFail = TRUE
